@@ -71,6 +71,10 @@ def run(ctx):
             check_class(ctx, facts, cfg, crec, mrole)
         check_publish_last(ctx, facts, cfg)
         check_power_of_two(ctx, facts, cfg)
+        # the storage handed out lies inside what was mapped: every mmap call (huge-page attempt and fallback) asks for the full length (= C20.R6b)
+        from rules import c20
+        c20.mapping_agreement(ctx, facts, cfg, "C01.R5f")
+    power_of_two_witness(ctx)
 
 
 def check_class(ctx, facts, cfg, crec, mrole):
@@ -520,3 +524,26 @@ def check_power_of_two(ctx, facts, cfg):
                                 bit = True
         ok = nz and bit and len(parts) == 2
     ctx.ob("C01.R5d", "is_power_of_two:definition", ok, "is_power_of_two(n) is n != 0 && (n & (n - 1)) == 0", fn=ip)
+
+
+def power_of_two_witness(ctx, rule="C01.R5e"):
+    """R5e: compile-time witness for the two constexpr helpers next_power_of_two rests on: is_power_of_two(n) is 'exactly one bit set' for
+    every n up to 2^16 and for 2^k - 1, 2^k, 2^k + 1 (k <= 63); max_power_of_two<T>() is 2^(bits-1) for the four unsigned index types."""
+    import ctw
+    vals = set(range(0, 65537))
+    for k in range(0, 64):
+        for d in (-1, 0, 1):
+            v = (1 << k) + d
+            if 0 <= v < (1 << 64):
+                vals.add(v)
+    vals.add((1 << 64) - 1)
+    rows = ["{%dull, %s}" % (v, "true" if bin(v).count("1") == 1 else "false") for v in sorted(vals)]
+    bad = ctw.static_table("pow2", '#include "quill/core/MathUtilities.h"\n#include <cstdint>\nnamespace d = quill::detail;\n'
+                           'static_assert(d::max_power_of_two<uint8_t>() == 128u && d::max_power_of_two<uint16_t>() == 32768u && '
+                           'd::max_power_of_two<uint32_t>() == 2147483648u && d::max_power_of_two<uint64_t>() == 9223372036854775808ull, "chunk 0");',
+                           "unsigned long long n; bool p;", rows, "d::is_power_of_two(r.n) == r.p", step=4096)
+    ctx.units.add(("pow2-witness", "A"))
+    ctx.ob(rule, "MathUtilities:is_power_of_two/max_power_of_two", not bad,
+           "compile-time witness over %d values (0..65536 and 2^k-1, 2^k, 2^k+1 for k <= 63): is_power_of_two is 'exactly one bit set'; "
+           "max_power_of_two<T>() is 2^(bits-1) for uint8/16/32/64%s" % (len(rows), ("; mismatch at row(s) %s" % bad[:4]) if bad else ""),
+           loc="core/MathUtilities.h")
